@@ -58,6 +58,9 @@ P['ct_ifinthen'] = 'fn dsp(a:(float,float))->float{\n  if (a.0) { if (a.1) 1.0 e
 P['ct_ifinelse'] = 'fn dsp(a:(float,float))->float{\n  if (a.0) 1.0 else { if (a.1) 2.0 else 3.0 }\n}\n'
 P['ct_ifcall'] = 'fn pick(c:float, x:float){\n  if (c) x else 0.0 - x\n}\nfn dsp(a:(float,float))->float{\n  let p = pick(a.0, 1.0)\n  let q = if (a.1) pick(a.1, 2.0) else 5.0\n  p + q\n}\n'
 P['ct_ifafterstate'] = 'fn cnt(x:float){\n  self + x\n}\nfn dsp(a:float)->float{\n  let c = cnt(1.0)\n  let p = if (a) c else 0.0\n  let q = if (a - 1.0) 10.0 else 20.0\n  p + q\n}\n'
+P['ct_matchf'] = 'fn pick(n){\n    match n {\n        0 => 100\n        1 => 200\n        _ => 300\n    }\n}\nfn dsp(a:float)->float{\n  pick(a)\n}\n'
+P['ct_matchneg'] = 'fn pick(n){\n    match n {\n        0 => 20\n        1 => 10\n        2 => 30\n        _ => 40\n    }\n}\nfn dsp(a:(float,float))->float{\n  pick(a.0) + pick(a.1 * 0.5)\n}\n'
+P['ct_matchstate'] = 'fn cnt(x:float){\n  self + x\n}\nfn dsp(a:float)->float{\n  let c = cnt(1.0)\n  match a {\n    0 => c\n    1 => 0.0 - c\n    _ => 0.5\n  }\n}\n'
 # ---- G_cls --------------------------------------------------------------------------------------------------
 P['cl_hof'] = 'fn apply(f:(float)->float, x:float){\n  f(x)\n}\nfn dsp(a:float)->float{\n  apply(|x| x * 3.0, a)\n}\n'
 P['cl_capture'] = 'fn dsp(a:(float,float))->float{\n  let k = a.0\n  let f = |x| x * k + 1.0\n  f(a.1)\n}\n'
